@@ -170,6 +170,17 @@ CLAIMED = {
         note="abstract model; AST extraction of attribute writes; CPython dict atomicity assumed for the thread clause.",
         technique="Lean 4 proof (parametric reset theorem + kernel-decided extracted tables) + history search on real objects",
         design="6/C12"),
+    "C07": dict(
+        category="translation_validation",
+        text="The whole serialize→parse pipeline is composed in Lean from the component models (walker, filters, serializer, "
+             "tokenizer, tree construction: H5.Model.Pipeline.roundTrip) and tied to the real pipeline by op roundtrip; the "
+             "filter order is extracted from the AST and proved to be the documented one. The identity on conforming documents "
+             "is decided by search on the real code: documents from a content-model grammar (each first checked to parse to "
+             "itself without errors) x random option combinations x walkers x encodings; failing documents are shrunk through "
+             "conforming candidates only and classified. The identity theorem is not proved.",
+        note="composed Lean model tied by correspondence; G-conf grammar defines 'conforming'; search decides the identity.",
+        technique="composed Lean 4 model validated by differential correspondence + round-trip search with shrinking",
+        design="6/C07"),
 }
 
 PENDING_REASON = "check under construction in this round: model/theorems not yet committed (see DESIGN section 8); not claimed"
